@@ -1,4 +1,4 @@
-import DoraModel.Wait.MtxInv7
+import DoraModel.Wait.MtxInv11
 /-! # C09 — the invariants hold in every reachable state; running a trace stays reachable -/
 namespace Dora.Wait.Mtx
 
@@ -63,5 +63,27 @@ theorem Reach.sinv (hr : Reach n s) : SInv s := by
     · intro u k f hu; simp [Mtx.init, List.getElem?_replicate] at hu
     · intro u k hu; simp [Mtx.init, List.getElem?_replicate] at hu
   | step _ ha ih => obtain ⟨pc, hpc, hst⟩ := accept_stepAt ha; exact sinv_step ih hpc hst
+
+theorem Reach.qinv (hr : Reach n s) (hnp : s.pcs.countP isPanicked = 0) : QInv s := by
+  induction hr with
+  | init =>
+    refine ⟨⟨List.nodup_nil, fun u hu => by cases hu⟩, ⟨List.nodup_nil, fun u hu => by cases hu⟩, ?_⟩
+    intro u hu; simp [Mtx.init, List.getElem?_replicate] at hu
+  | step hprev ha ih =>
+    obtain ⟨pc, hpc, hst⟩ := accept_stepAt ha
+    exact qinv_step (ih (nopanic_back hpc hst hnp)) hprev.sinv hpc hst hnp
+
+theorem Reach.jinv (hr : Reach n s) (hnp : s.pcs.countP isPanicked = 0) : JInv s := by
+  induction hr with
+  | init =>
+    have z : ∀ p : PC → Bool, p PC.idle = false → (List.replicate n PC.idle).countP p = 0 := by
+      intro p hp; rw [List.countP_eq_zero]; intro a ha; rw [List.eq_of_mem_replicate ha, hp]; simp
+    refine ⟨?_, ?_⟩
+    · show 0 < (List.replicate n PC.idle).countP isEq2M → _; rw [z isEq2M rfl]; intro h; cases h
+    · show 0 < ([] : List Nat).length → _; intro h; cases h
+  | step hprev ha ih =>
+    obtain ⟨pc, hpc, hst⟩ := accept_stepAt ha
+    have hnp0 := nopanic_back hpc hst hnp
+    exact jinv_step (ih hnp0) (hprev.cinv hnp0) (hprev.qinv hnp0) hpc hst hnp
 
 end Dora.Wait.Mtx
